@@ -174,6 +174,17 @@ def method_unit(prop, fn, doms, on='regs', spec=None, contract=None, contracts=N
             eng.oblige('safe.host', '%s: every state leaf keeps its kind (integer / truth value), also where UNPREDICTABLE' % lab, False,
                        detail='leaves holding another kind of value: %s' % odd[:6])
             return
+        # what callers rely on even where the contract says UNPREDICTABLE (their safety obligations have no such waiver):
+        # the result stays in the range the contract promises and nothing outside the contract's own footprint is written
+        if raised is None and isinstance(exp_r, (int, sym.SymInt)) and not isinstance(exp_r, bool) and isinstance(r1, (int, sym.SymInt)) and not isinstance(r1, bool):
+            elo, ehi = (exp_r, exp_r) if isinstance(exp_r, int) else (exp_r.lo, exp_r.hi)
+            if 0 <= elo and ehi <= 0xFFFFFFFF:
+                eng.oblige('safe.range', '%s: result within 0..2^32-1 on every path (also where UNPREDICTABLE)' % lab,
+                           sym.land(r1 >= 0, r1 <= 0xFFFFFFFF))
+        outside = [(k, values_eq(v, init[k])) for k, v in fin.items()
+                   if k not in ignore and k != 'mem' and k in init and st.get(k) is init[k] and not k.startswith('chg[')]
+        if outside and spec is None:
+            eng.oblige_all('frame.unpred', '%s: leaves outside the contract\'s footprint are untouched on every path (also where UNPREDICTABLE)' % lab, outside)
         named = []
         for k, v in fin.items():
             if k in ignore:
